@@ -396,8 +396,10 @@ double one_normest_core(const gsl_matrix_complex *A, unsigned int t, unsigned in
     throw std::runtime_error("At least two iterations are needed.");
   if (t < 1 )
     throw std::runtime_error("At least one column is needed.");
+  // the block estimator needs t < n; for such tiny matrices the exact norm is cheaper anyway
+  // (the same fallback as in MATLAB's normest1 and SciPy's onenormest)
   if (t >= A->size1)
-    throw std::runtime_error("t should be smaller than the order of the matrix.");
+    return exact_1_norm(A);
 
   unsigned int n = A->size1;
   unsigned int nmults = 0;
